@@ -323,6 +323,10 @@ def run_harness(stage_dir, h, spec, extra_kani=(), playback=False, log_dir=None)
             pass
     timeout = int(spec.get("timeout_s", 900))
     mem_gb = int(spec.get("mem_gb", 12))
+    if playback:
+        # kani-driver keeps CBMC's whole JSON trace in memory when extracting the
+        # counterexample; give it room (only runs after a tagged failure)
+        timeout, mem_gb = max(timeout * 3, 1800), 48
     t0 = time.time()
     with Slot() as tgt:
         cmd = ["cargo", "kani", "--target-dir", tgt] + KANI_FLAGS + list(spec.get("kani", [])) + list(extra_kani)
@@ -536,7 +540,12 @@ def decide(prop, tier, seed):
 
     # replay candidates before reporting
     confirmed = []
-    for s, r, why in violations:
+    # replay is expensive (CBMC must emit a full trace): smallest program first, stop at the
+    # first counterexample that reproduces, try at most 3
+    violations.sort(key=lambda v: v[1].get("steps", 0))
+    for s, r, why in violations[:3]:
+        if confirmed:
+            break
         ok, rp, note = replay(st, h, s, prop, log_dir)
         r["replay"] = {"reproduced": ok, "path": rp, "note": note}
         if ok:
